@@ -4,7 +4,8 @@
    TimeFixedGFormula.fit_stochastic, stochastic_check_conditional); proofs: Proofs/StochasticProofs.v. *)
 From Coq Require Import QArith Qround List Bool Arith ZArith Permutation.
 From Zepid Require Import Base.QSum Base.QUtil Base.Rows Proofs.RowsProofs Model.Estimators Proofs.EstimatorsProofs
-  Model.Stochastic Proofs.StochasticProofs.
+  Model.Stochastic Proofs.StochasticProofs GenProofs.GenProofs_gfmarg.
+From ZepidGen Require Import Gen_gfmarg_Q.
 Import ListNotations.
 Open Scope Q_scope.
 
@@ -171,6 +172,23 @@ Proof.
     + vm_compute. repeat split; reflexivity.
 Qed.
 
+(* ---- tie to the current source ---------------------------------------------------------------------------- *)
+(* the per-replicate marginalisation of TimeFixedGFormula.fit_stochastic (regenerated on every run: six branches) is the
+   model's weighted mean over the target rows, selected by the OBSERVED exposure, whatever the replicate's predictions;
+   a degenerate replicate (everybody assigned a) therefore gives the deterministic plan's gf_marginal *)
+Theorem C14_src_fit_stochastic_marginal : forall t f l,
+  (match t with TAll => gf_sto_population_w_Q | TExposed => gf_sto_exposed_w_Q | TUnexposed => gf_sto_unexposed_w_Q end) (viewf f l)
+  == gf_marginal_f t f l.
+Proof. exact gen_sto_w. Qed.
+Theorem C14_src_fit_stochastic_marginal_unweighted : forall t f l, (forall r, In r l -> wt r == 1) ->
+  (match t with TAll => gf_sto_population_now_Q | TExposed => gf_sto_exposed_now_Q | TUnexposed => gf_sto_unexposed_now_Q end) (viewf f l)
+  == gf_marginal_f t f l.
+Proof. exact gen_sto_now. Qed.
+Theorem C14_src_degenerate_replicate : forall t a l,
+  (match t with TAll => gf_sto_population_w_Q | TExposed => gf_sto_exposed_w_Q | TUnexposed => gf_sto_unexposed_w_Q end) (view a l)
+  == gf_marginal t a l.
+Proof. exact gen_sto_degenerate_w. Qed.
+
 Print Assumptions C14_assign_p_perm.
 Print Assumptions C14_assign_is_the_match.
 Print Assumptions C14_assign_exhaustive.
@@ -191,3 +209,6 @@ Print Assumptions C14_stmle_spec_perm.
 Print Assumptions C14_stmle_code_law.
 Print Assumptions C14_stmle_code_order_dependent.
 Print Assumptions C14_stmle_mc_refuted.
+Print Assumptions C14_src_fit_stochastic_marginal.
+Print Assumptions C14_src_fit_stochastic_marginal_unweighted.
+Print Assumptions C14_src_degenerate_replicate.
